@@ -10,6 +10,7 @@ import (
 	"crypto/sha256"
 	"errors"
 	"fmt"
+	"sort"
 
 	"github.com/33cn/chain33/common"
 	"github.com/decred/base58"
@@ -118,22 +119,33 @@ func PubKeyToAddr(addressID int32, pubKey []byte) string {
 // blockHeight is used for enable check, pass -1 if there is no block height context
 func CheckAddress(addr string, blockHeight int64) (e error) {
 
-	if value, ok := checkAddressCache.Get(addr); ok {
+	// 按驱动id顺序检查, 返回结果(包括具体的错误)不依赖map遍历顺序;
+	// 结果依赖该高度下启用了哪些驱动, 缓存的key需要包含启用状态
+	ids := make([]int, 0, len(drivers))
+	for id := range drivers {
+		ids = append(ids, int(id))
+	}
+	sort.Ints(ids)
+	enabled := make([]byte, 0, len(ids))
+	for _, id := range ids {
+		if isEnable(blockHeight, drivers[int32(id)].enableHeight) {
+			enabled = append(enabled, byte(id))
+		}
+	}
+	cacheKey := string(enabled) + "/" + addr
+	if value, ok := checkAddressCache.Get(cacheKey); ok {
 		if value != nil {
 			return value.(error)
 		}
 		return nil
 	}
-	for _, d := range drivers {
-		if !isEnable(blockHeight, d.enableHeight) {
-			continue
-		}
-		e = d.driver.ValidateAddr(addr)
+	for _, id := range enabled {
+		e = drivers[int32(id)].driver.ValidateAddr(addr)
 		if e == nil {
 			break
 		}
 	}
-	checkAddressCache.Add(addr, e)
+	checkAddressCache.Add(cacheKey, e)
 	return e
 }
 
